@@ -234,6 +234,30 @@ def limit_cases(rng, tier, op='encode'):
     return cs
 
 
+def adjacent_capacity_cases(rng, tier, op='encode'):
+    """symbol lists in which two capacities differ by one or two codewords (43/44, 62/63, 63/64 with the DMRE sizes, 3/5, 8/10 ...):
+    runs of every scheme that end exactly at, one before and one after the smaller capacity, with the two symbols alone and with
+    all 48 sizes listed -- where 'space left in the current symbol' and 'space left once the symbol has grown' differ by one and
+    the end-of-data rules of encoder and planner must query the same size.  Deterministic up to the choice of characters."""
+    cs = []
+    cp = caps()
+    pairs = [(i, j) for i in range(48) for j in range(48) if 0 < cp[j] - cp[i] <= 2]
+    kinds = {'digits': (2.0, 1), 'c40': (1.5, 2), 'text': (1.5, 4), 'x12': (1.5, 8), 'edifact': (4.0 / 3, 16), 'high': (1.0, 32)}
+    for i, j in pairs:
+        c = cp[i]
+        for kind, (per, m) in sorted(kinds.items()):
+            for delta in (-2, -1, 0, 1, 2):
+                L = int((c - (0 if kind == 'digits' else 1)) * per) + delta
+                if L <= 0:
+                    continue
+                d = [rng.choice(ALPH[kind]) for _ in range(L)]
+                for wl in ([i, j], ALL48):
+                    for modes in ((63, m) if tier == 'quick' else (63, m, m | 1)):
+                        line = encode_line(d, wl, modes, False, False, None).replace('encode', op, 1)
+                        cs.append({'line': line, 'cat': 'adjacent-' + kind, 'cfg': dict(data=d, wl=wl, modes=modes, macros=False, fnc1=False, eci=None)})
+    return cs
+
+
 def prefix_cases(rng, tier, op='encode'):
     """every non-empty mode subset combined with each way of writing a codeword before the data (FNC1 start, ECI, Macro
     05/06 header) and with none, on a few short inputs of each alphabet: the configurations in which the planner starts
@@ -262,14 +286,14 @@ def prefix_cases(rng, tier, op='encode'):
 def boundary_cases(rng, tier, per_cap=2, op='encode'):
     """inputs whose encoded length lands around a symbol capacity: digit / letter / byte runs of the
     lengths that fill a symbol exactly, one less, one more (where the end-of-data rules fire).  For the small
-    capacities (<= 62 codewords) the family is complete: every alphabet x every delta, plain and with each kind of tail,
+    capacities (<= 64 codewords, which includes the DMRE neighbours 62 / 63 / 64) the family is complete: every alphabet x every delta, plain and with each kind of tail,
     with and without an FNC1 start (which shifts the parity of the codewords before the run)."""
     cs = []
     seen = set()
     tails = {'digit1': [52], 'digit2': [52, 50], 'digit3': [52, 50, 51], 'upper': [65], 'lower': [97, 98], 'high': [200], 'punct': [33],
              'brace': [123], 'tilde': [126], 'shift3x2': [125, 124], 'del': [127], 'ctrl': [29]}
     for c in sorted(set(caps())):
-        small = c <= 62
+        small = c <= 64
         if c > 120 and tier == 'quick' and rng.chance(2, 3):
             continue
         for kind in ('digits', 'c40', 'text', 'x12', 'edifact', 'high', 'ctrl'):
